@@ -916,6 +916,8 @@ func checkC07(w *World, r *Report) {
 	}
 	// ---- R07.6
 	ruleFamilyCopies(w, r, "R07.6")
+	r.Rule("R07.7", 10, "the dependencies that are validated are the dependencies that are injected: sibling agreement of the struct walkers (analysis vs runtime) and resolvers")
+	ruleFieldFilters(w, r, "R07.7")
 }
 
 func exprStrs(es []ast.Expr) string {
@@ -1008,6 +1010,8 @@ func checkC08(w *World, r *Report) {
 	r.Rule("R08.4", 1, "the runtime miss is a ResolutionError whose Cause is ErrServiceNotFound")
 
 	ruleBuildPipeline(w, r, "", "", "", "R08.1", "")
+	r.Rule("R08.5", 10, "the dependencies that are checked for presence are the dependencies that are injected: sibling agreement of the struct walkers (analysis vs runtime) and resolvers")
+	ruleFieldFilters(w, r, "R08.5")
 	fi := presenceCheckFn(w)
 	if false {
 		// role: the function called from doBuild that returns ErrServiceNotFound
@@ -1282,6 +1286,15 @@ func ruleOptionalOnly(w *World, r *Report, rule string) {
 		case *ast.ReturnStmt:
 			if len(s.Results) >= 1 && !isNilIdent(info, s.Results[len(s.Results)-1]) {
 				sawReturn = true
+				nonOpt := false
+				for k := range bf {
+					if strings.HasSuffix(k, ".Optional=false") {
+						nonOpt = true
+					}
+				}
+				if !nonOpt {
+					bad = "a failed field resolution is returned as an error at " + w.Pos(s.Pos()) + " without the field's optional tag having been tested false: a missing optional dependency makes construction fail although Build accepted the registration"
+				}
 			}
 		}
 	}
